@@ -305,7 +305,15 @@ def bytes_task(task):
     st = Stats()
     for data in task['datas']:
         data = bytes(data)
-        esc = ''.join('\\x%02x' % b for b in data)
+        NAMED = {7: '\\a', 8: '\\b', 12: '\\f', 10: '\\n', 13: '\\r', 9: '\\t', 0: '\\0', 39: "\\'", 34: '\\"', 92: '\\\\'}
+        spell = task.get('spell', 'hex')
+        if spell == 'named':        # the documented one-letter escapes (README), independent of the lexer's table
+            one = lambda b: NAMED.get(b, '\\x%02x' % b)
+        elif spell == 'unicode':    # \u{...} for ASCII code points
+            one = lambda b: '\\u{%x}' % b if b < 0x80 else '\\x%02x' % b
+        else:
+            one = lambda b: '\\x%02x' % b
+        esc = ''.join(one(b) for b in data)
         form = task['form']
         if form == 'string':
             src = 'empty @is_you() { write("%s"); sleep("%s".length); write("%s"[0]); }\n' % (esc, esc, esc)
@@ -319,7 +327,7 @@ def bytes_task(task):
             src = 'empty @is_you() { write(\'%s\'); byte b = \'%s\'; write(b); sleep(\'%s\'); }\n' % (esc, esc, esc)
             exp, sl = data + data, [data[0]]
         elif form == 'cbytes':
-            src = 'const byte[] g = [%s];\nempty @is_you() { write(g); write([%s]); }\n' % (', '.join("'\\x%02x'" % b for b in data), ', '.join("'\\x%02x'" % b for b in data))
+            src = 'const byte[] g = [%s];\nempty @is_you() { write(g); write([%s]); }\n' % (', '.join("'%s'" % one(b) for b in data), ', '.join("'%s'" % one(b) for b in data))
             exp, sl = data + data, []
         elif form == 'string-array':
             src = 'const string[] g = ["%s", "q%s"];\nempty @is_you() { write(g[0]); write(g[1]); }\n' % (esc, esc)
@@ -389,6 +397,11 @@ def main():
             longs.append(d)
     for k in range(0, len(longs), 48):
         btasks.append(dict(name='bytes/long-%d' % k, form='string', chunk='long%d' % k, datas=longs[k:k + 48], W=2))
+    named = [7, 8, 12, 10, 13, 9, 0, 39, 34, 92]
+    for form in ('string', 'char', 'cbytes', 'string-array'):
+        btasks.append(dict(name='bytes/named-' + form, form=form, chunk='named', spell='named', W=2,
+                           datas=[[b] for b in named] + ([[a, b] for a in named for b in named] if form != 'char' else [])))
+        btasks.append(dict(name='bytes/unicode-' + form, form=form, chunk='unicode', spell='unicode', W=2, datas=[[b] for b in range(0, 128)]))
     printable = [[b] for b in range(32, 127) if b not in (34, 92)]
     btasks.append(dict(name='bytes/raw', form='raw-string', chunk=0, datas=printable + [[65, b, 66] for b in range(32, 127) if b not in (34, 92)], W=2))
     run_tasks(rep, btasks, worker=bytes_task, limit=600, sample_every=5)
@@ -428,7 +441,7 @@ def main():
     # (C) CrossHair on the escaping function
     try:
         from hv import chx
-        chx.run_into(rep, 'c13', per_condition_timeout=200 if quick else 900)
+        chx.run_into(rep, 'c13', per_condition_timeout=500 if quick else 900)
     except ImportError:
         rep.cov['crosshair'] = 'CrossHair harness not available'
     rep.rule = ('payload templates: kind in {string local/global/argument/converted, const byte/int/bool arrays global and local, string arrays} x length %s x word size, contents symbolic; '
